@@ -6,6 +6,8 @@ JSON tree:  ["S",name] | ["N","num","den"] | ["A",[..]] | ["M",[..]] | ["P",b,e]
 """
 from __future__ import annotations
 
+import itertools
+
 import common  # noqa: F401
 import sympy as sp
 from sympy.core.function import AppliedUndef
@@ -54,22 +56,56 @@ def sym_name(s: sp.Symbol) -> str:
 
 
 # ---------------------------------------------------------------- JSON -> SymPy (constructors)
-def build(t):
+# The declared type of a pool is Iterable[sp.Basic]: the same values through different iterables,
+# one-shot iterators included.
+def _range_or_tuple(vals):
+    ints = [int(v) for v in vals] if all(getattr(v, "is_Integer", False) for v in vals) else None
+    if ints and ints == list(range(ints[0], ints[0] + len(ints))):
+        return range(ints[0], ints[0] + len(ints))
+    return tuple(vals)
+
+
+SUPPLIERS = {
+    "tuple": lambda vals: tuple(vals),
+    "list": lambda vals: list(vals),
+    "sympy_tuple": lambda vals: sp.Tuple(*vals),
+    "generator": lambda vals: (v for v in vals),
+    "map": lambda vals: map(sp.sympify, list(vals)),
+    "iter_list": lambda vals: iter(list(vals)),
+    "chain": lambda vals: itertools.chain(vals[:1], vals[1:]),
+    "zip_unpack": lambda vals: (v for (v,) in zip(vals)),
+    "dict_keys": lambda vals: dict.fromkeys(vals).keys() if len(set(vals)) == len(vals) else list(vals),
+    "range": _range_or_tuple,
+}
+
+
+def build(t, supplier=None, problems=None):
+    """JSON -> SymPy through the public constructors.  `supplier` names the kind of iterable the pools
+    are handed to PoolSum.__new__ in; `problems` collects nodes whose constructed pools differ from
+    the values handed in."""
     k = t[0]
     if k == "S":
         return sp.Symbol(t[1])
     if k == "N":
         return sp.Rational(int(t[1]), int(t[2]))
     if k == "A":
-        return sp.Add(*[build(a) for a in t[1]])
+        return sp.Add(*[build(a, supplier, problems) for a in t[1]])
     if k == "M":
-        return sp.Mul(*[build(a) for a in t[1]])
+        return sp.Mul(*[build(a, supplier, problems) for a in t[1]])
     if k == "P":
-        return sp.Pow(build(t[1]), build(t[2]))
+        return sp.Pow(build(t[1], supplier, problems), build(t[2], supplier, problems))
     if k == "F":
-        return sp.Function(t[1])(*[build(a) for a in t[2]])
+        return sp.Function(t[1])(*[build(a, supplier, problems) for a in t[2]])
     if k == "PS":
-        return PoolSum(build(t[1]), *[(sp.Symbol(n), tuple(build(v) for v in vals)) for n, vals in t[2]])
+        body = build(t[1], supplier, problems)
+        want = [(sp.Symbol(n), tuple(build(v, supplier, problems) for v in vals)) for n, vals in t[2]]
+        sup = SUPPLIERS[supplier or "tuple"]
+        node = PoolSum(body, *[(n, sup(list(vals))) for n, vals in want])
+        if problems is not None:
+            got = [(a[0], tuple(a[1])) for a in node.args[1:]]
+            if got != want:
+                problems.append(f"PoolSum(..., pools handed in as {supplier or 'tuple'}: {want}) was constructed with indices {got}")
+        return node
     raise ValueError(t)
 
 
@@ -186,7 +222,7 @@ def gen_poolsum(rng, scope, free, depth, nest, budget, n_idx=None, quirks=False)
         names[-1] = names[0]  # duplicate index symbol (malformed; model-vs-code only)
     indices = []
     for nm in names:
-        pool = gen_pool(rng, free, symbolic_ok=True)
+        pool = gen_pool(rng, [f for f in free if f in FREE] or FREE, symbolic_ok=True)
         while budget[0] // max(len(pool), 1) < 1 and len(pool) > 1:
             pool = pool[:-1]
         budget[0] = max(1, budget[0] // len(pool))
@@ -233,3 +269,33 @@ def gen_builder_nest(rng, budget=48):
         terms.append(PoolSum(body, *[(sp.Symbol(n), p) for n, p in zip(inner, pin)]))
     amp = sp.Add(*terms)
     return PoolSum(sp.Function("h")(amp) ** 2, *[(sp.Symbol(n), p) for n, p in zip(outer, pools_out)])
+
+
+def gen_shadow_nest(rng, level=2, budget=None):
+    """Nested sums (depth level+1 >= 3 by default) in which the five index names are used BOTH as free
+    symbols of the summands and as binders at random levels: a symbol is free at one level and bound
+    deeper (shadowing), or bound in one sibling sum and free in the other."""
+    budget = budget if budget is not None else [48]
+    names = rng.sample(IDX, rng.choice([1, 1, 2]))
+    indices = []
+    for nm in names:
+        pool = gen_pool(rng, FREE, symbolic_ok=(rng.random() < 0.3))
+        while budget[0] // max(len(pool), 1) < 1 and len(pool) > 1:
+            pool = pool[:-1]
+        budget[0] = max(1, budget[0] // len(pool))
+        indices.append((sp.Symbol(nm), pool))
+    # summand: every index name may occur, whether or not it is bound here
+    own = gen_summand(rng, IDX, FREE, rng.randint(1, 2), 0, budget)
+    if level <= 0:
+        return PoolSum(own, *indices)
+    parts = [own, gen_shadow_nest(rng, level - 1, budget)]
+    if rng.random() < 0.4:
+        parts.append(gen_shadow_nest(rng, max(level - 1 - rng.randint(0, 1), 0), budget))  # sibling
+    r = rng.random()
+    if r < 0.4:
+        body = sp.Mul(*parts)
+    elif r < 0.8:
+        body = sp.Add(*parts)
+    else:
+        body = sp.Function("f")(*parts)
+    return PoolSum(body, *indices)
